@@ -640,7 +640,7 @@ func (pc pathCtx) classifyCall(c *ssa.Call, res int) leafClass {
 			return leafClass{ok: true, what: "part of a validated digest: " + why}
 		}
 		return leafClass{tainted: true, what: "digest part (" + cal.Name() + ") used in a path: " + why}
-	case core.IsModFunc(cal, ".", "tarOCILayoutDescPath"):
+	case cal.Pkg() != nil && cal.Pkg().Path() == modPath(".") && canonObj(cal) == "tarOCILayoutDescPath":
 		return leafClass{ok: true, what: "layout path of a descriptor (callers checked by C20.R4)"}
 	case core.IsModFunc(cal, "types/referrer", "FallbackTag"):
 		return leafClass{tainted: true, what: "fallback tag used as a path element"}
